@@ -220,6 +220,29 @@ pub fn run(rep: &mut StageReport, tier: &str, seed: u64) {
             payloads.push((format!("class{}-{}B", class, sz), Arc::new(payload_class(&mut rng, class, sz))));
         }
     }
+    // payloads that are themselves compressed streams (an archive, an already compressed blob, a message that was
+    // compressed twice): every algorithm's own output, fed to every algorithm again
+    {
+        let sources: Vec<(&str, Vec<u8>)> = vec![
+            ("empty", vec![]),
+            ("text-4096B", payload_class(&mut rng, 4, 4096)),
+            ("random-64B", payload_class(&mut rng, 2, 64)),
+            ("run-10000B", payload_class(&mut rng, 3, 10_000)),
+        ];
+        let mut seen_alg: Vec<String> = vec![];
+        for p in pairs.iter() {
+            let family = p.2.split('/').next().unwrap_or("").to_string();
+            if seen_alg.contains(&family) {
+                continue;
+            }
+            seen_alg.push(family.clone());
+            for (sname, src) in &sources {
+                if let Ok(c) = p.0.compress(Bytes::from(src.clone())) {
+                    payloads.push((format!("precompressed({})-of-{}", p.2, sname), Arc::new(c.to_vec())));
+                }
+            }
+        }
+    }
     rep.count("payloads", payloads.len() as u64);
     let jobs: Vec<(usize, usize)> = {
         let mut j = vec![];
